@@ -404,6 +404,18 @@ impl LockStep {
             Compare::Int => info.interrupted || info.class == Class::Reti,
             Compare::Off => false,
         };
+        if self.compare == Compare::Int && self.sut.bus().is_key_edge_int_enabled() != self.rf.key_enabled() {
+            // whether the program has enabled the key is C04's business at every boundary
+            return Err(self.v(
+                "key-enable",
+                format!(
+                    "after {}: key-edge interrupt enabled = {} but bit 0 of the last byte the program wrote to 0xF9 is {}",
+                    Self::desc(&info),
+                    self.sut.bus().is_key_edge_int_enabled(),
+                    self.rf.micr & 1
+                ),
+            ));
+        }
         if diff.is_some() && !compared {
             // a difference that is another property's business: follow the SUT, skip the cost check
             self.resync();
